@@ -384,7 +384,7 @@ def shard(cfg):
         sel, roots, delivery, choices = case
         check_case(sel, roots, delivery, choices, rec)
 
-    n, v, herr = hyp_search(strat, body, seed=cfg["seed"] * 1000 + cfg["shard"], max_examples=cfg["examples"])
+    n, v, herr = hyp_search(strat, body, seed=cfg["seed"] * 1000 + cfg["shard"], max_examples=cfg["examples"], case_cpu_s=30.0)
     res = rec.result()
     if v is not None:
         res["violations"] = [violation_record(PROPERTY, v, _payload(*v.case))]
